@@ -20,7 +20,7 @@ COMPONENTS = {"real": ["ECAgent.Core.Model.complete/is_running/__bool__/execute"
               "stub": ["System.execute bodies are harness recorders; the completer calls model.complete() when scripted"]}
 PROBES = ["completer_first", "completer_middle", "completer_last", "complete_outside", "complete_at_t0",
           "multi_step_spans_completion", "throw_error_raised", "add_after_complete", "remove_after_complete",
-          "due_system_skipped"]
+          "due_system_skipped", "completer_raises_after_complete"]
 TECHNIQUE = "deterministic simulation: complete() injected as a cancellation at every schedule point, then a seeded request tail with a 'nothing moves' oracle"
 LEVEL_TEXT = ("Seeded search over the completion point (queue position x timestep, inside multi-step requests, from outside) "
               "and over the later request history; checks that nothing executes after the completing system, that the clock, "
@@ -77,10 +77,13 @@ def generate(rng, tier):
             tail.append({"op": "complete"})
         else:
             tail.append({"op": "remove_ghost"})
+    if comp["by"] is not None and rng.random() < 0.2:
+        comp["then_raise"] = rng.choice(["OSError", "ValueError", "RuntimeError", "KeyError"])
     return {"systems": systems, "complete": comp, "pre": pre, "tail": tail}
 
 
 BAD = {"zero": 0, "neg": -3, "float": 1.5, "str": "2", "none": None}
+EXC = {"OSError": OSError, "ValueError": ValueError, "RuntimeError": RuntimeError, "KeyError": KeyError}
 
 
 class World:
@@ -99,6 +102,10 @@ class World:
             self.model.complete()
             self.completed_at_seq = len(self.log)
             self.ctx.event("complete-inside", s.id, t)
+            if self.comp.get("then_raise"):
+                # the system completes the model and then fails (e.g. while writing its final report)
+                self.ctx.probe("completer_raises_after_complete")
+                raise EXC[self.comp["then_raise"]]("failure after complete()")
 
 
 def execute(sc, ctx):
@@ -136,11 +143,14 @@ def execute(sc, ctx):
         nonlocal done, frozen_clock, frozen_log
         t0 = ref.t
         before = len(w.log)
+        st, v = ctx.call(sm.execute_systems) if kind == "bare" else ctx.call(m.execute, n)
         if kind == "bare":
             n = 1
-            ctx.expect_ok("execute_systems", sm.execute_systems)
-        else:
-            ctx.expect_ok("execute", m.execute, n)
+        if st != "ok":
+            # only the scripted failure of the completing system may escape, and only in the completing call
+            ok = (w.completed_at_seq is not None and not done and w.comp.get("then_raise")
+                  and isinstance(v, EXC[w.comp["then_raise"]]))
+            ctx.check(ok, "advance:unexpected-exception", f"{type(v).__name__}: {v}")
         if done:
             return
         new = w.log[before:]
